@@ -79,9 +79,13 @@ def c04(tier):
         # (c) Close frames: symbolic 2-byte code (all 65536 codes) + up to 3 reason bytes
         recv_spec('close-codes', tags + ['C01'], N=7, first_opcodes=[8], no_rsv=True),
     ]
+    # the same violations received in the CLOSING state (the application called close() at Ready)
+    fam.append(recv_spec('closing-state-N4', tags + ['C01'], N=4 if tier == 'quick' else 5, app_close_at_ready=True))
+    fam.append(recv_spec('closing-state-close-codes', tags + ['C01'], N=5 if tier == 'quick' else 6, first_opcodes=[8], no_rsv=True,
+                         app_close_at_ready=True))
     if tier == 'quick':
         specs = [recv_spec('recv-N5', tags, N=5), recv_spec('recv-N4-bytewise', tags, N=4, cuts='bytewise')] + fam[:2] + \
-                [recv_spec('close-codes', tags + ['C01'], N=6, first_opcodes=[8], no_rsv=True)]
+                [recv_spec('close-codes', tags + ['C01'], N=6, first_opcodes=[8], no_rsv=True)] + fam[3:]
     else:
         specs = [recv_spec('recv-N7', tags, N=7), recv_spec('recv-N6-bytewise', tags, N=6, cuts='bytewise')] + fam
     return run_property('C04', tier, specs, 'model_checking', 'protocol violations', ENV_ASSUMPTIONS, RECV_FUNCS)
@@ -185,6 +189,7 @@ def c03(tier):
              build_spec('close', [0, 1, 3, 122, 123, 124, 125, 200]),
              build_spec('close_text', [0, 1, 2]),
              build_spec('close_text_long', [30, 31, 41, 42, 61, 62, 123, 124]),
+             build_spec('compressed', [0]),
              build_spec('types', [0]),
              build_spec('json', [0])]
 
@@ -203,7 +208,7 @@ def c03(tier):
                         ENV_ASSUMPTIONS + ['content is symbolic at the first/last 8 bytes of long payloads, a fixed pattern in between '
                                            '(the 4-lane XOR structure is periodic); lengths other than the listed ones are outside the claim',
                                            'json.dumps is not encoded (C function): send_json is checked to route concrete objects through one text frame',
-                                           'no compression negotiated here (RSV1 with compression is C06)'],
+                                           'compression: one exploration with permessage-deflate negotiated (abstract zlib of C06): RSV1 iff requested; histories are C06'],
                         BUILD_FUNCS, pre=pre)
 
 
@@ -234,6 +239,10 @@ def c08(tier):
                   'delivery continues until the server Close; one more application action',
                   server=dict(kind='grammar', K=3, alphabet=['text', 'frag', 'close'], may_stop=True),
                   app=dict(actions=['close', 'send_binary'], max_actions=2, only_events=['connected', 'ready', 'text', 'binary', 'closing'])),
+        life_spec('close-max-reason', tags,
+                  'the longest legal Close (2-byte code + 123-byte reason) in both directions: server Close echoed, application close() accepted',
+                  server=dict(kind='grammar', K=2, alphabet=['text', 'close123']),
+                  app=dict(actions=['close_long', 'send_text'], max_actions=1)),
         life_spec('close-write-fault', tags,
                   'as close-orders with one symbolic socket-write fault (any sendall after the upgrade request)',
                   server=dict(kind='grammar', K=1, alphabet=['text', 'close']),
